@@ -181,6 +181,21 @@ CHECKS = {
             "Serial simulate() only (ipyparallel is not installed); values are dyadic so merged sums compare with ==.",
             "instrumented subclass trace + executable reference model, exactly-once ids",
             "DESIGN.md §5 C05"),
+    "C07": ("fault_enumeration",
+            "For each generated configuration a fault-free dry run discovers the crash points (before/after every _run_simulation call, "
+            "every results-file write torn after 0 / 1 / a third / half / len-1 bytes, before/after every os.replace); every enumerated "
+            "point is executed in a forked child that os._exit()s there (real code, real files, failpoints installed from the harness in "
+            "the child only).  The parent then reads what is durable on disk, restarts a second fault-free child and decides the recorded "
+            "history: the restart completes, every variation ends with exactly rep_max distinct repetition ids equal to the durable ids "
+            "followed by the newly executed ones (first and second run draw ids from disjoint ranges), repetition counts match, the "
+            "final results file is loadable and identical, partial files are deleted when requested.  Small configurations are "
+            "enumerated completely (quick: 15 of 18 configurations, about 600 crash points; thorough: all points of every small "
+            "configuration, strided for rep_max around the 500-repetition save period, plus double crashes); guard histories restart "
+            "with changed fixed values / unpacked lists / extra parameters (must be refused, files untouched) and a larger rep_max "
+            "(must resume).",
+            "A crash is os._exit at the failpoint (nothing buffered is flushed); torn writes keep the first b bytes; the machine itself does not lose renamed files (no fsync modelling).",
+            "crash-point enumeration with forked children + offline history checker (exactly-once ids, durable + new)",
+            "DESIGN.md §5 C07"),
 }
 
 PENDING_REASON = "check not built yet in this session (design in DESIGN.md §5); will be claimed once its monitors run clean on the unchanged tree"
